@@ -104,7 +104,7 @@ def run(ctx):
     ctx.include("C06", rules=("R1", "R2", "R3", "R6"))
     # "the reply belongs to this question": a cached entry answers only the question it was stored for (the key and how it is compared)
     ctx.include("C06", rules=("R4",))
-    ctx.include("C04", rules=("R3",))
+    ctx.include("C04", rules=("R3", "R2"))      # ... and the section counts written on truncation belong to their own sections
     ctx.include("C14", rules=("R10", "R3", "R4", "R8"))
     # ---------------- R1: reply assembled from (query, upstream reply)
     cands = fn_with_sig(P, ["DnsMessage", "DNSPkt"], "DNSPkt")
